@@ -124,7 +124,7 @@ InvLocality ==
   \A k \in DOMAIN bag : Len(k[1]) <= (IF Cfg.cls = "Hessian" THEN 2 ELSE 1)
 \* central: evaluations come in pairs symmetric about x (checked when the call has returned)
 InvCentralSymmetric ==
-  (Finished /\ Cfg.m \in {"central", "central2"}) =>
+  (Finished /\ Cfg.partial = 0 /\ Cfg.m \in {"central", "central2"}) =>      \* partial = 1: the call raised part-way
       \A k \in DOMAIN bag : NegKey(k) \in DOMAIN bag /\ bag[NegKey(k)] = bag[k]
 
 \* acceptance: a trace is accepted iff TLC reaches the state that has consumed every event
